@@ -167,6 +167,7 @@ type RecBackend struct {
 	CloseFn   func() error
 	nCloseAt  map[string]int
 	closeWait chan struct{}
+	shared    smtp.Session // the one session object handed out by NewSession
 }
 
 func (b *RecBackend) add(e *Sx) {
@@ -206,16 +207,25 @@ func (b *RecBackend) NewSession(c *smtp.Conn) (smtp.Session, error) {
 	if e.Kind != "nil" {
 		return nil, e.Err()
 	}
-	s := &recSession{b: b}
-	switch {
-	case b.LMTPSess && b.AuthMechs != nil:
-		return &recLMTPAuthSession{recLMTPSession{s}, recAuth{s}}, nil
-	case b.LMTPSess:
-		return &recLMTPSession{s}, nil
-	case b.AuthMechs != nil:
-		return &recAuthSession{s, recAuth{s}}, nil
+	// every session of a backend is the SAME object (a stateless backend may well hand out one value):
+	// the server must not tell sessions apart, or remember anything, by comparing them
+	b.mu.Lock()
+	if b.shared == nil {
+		s := &recSession{b: b}
+		switch {
+		case b.LMTPSess && b.AuthMechs != nil:
+			b.shared = &recLMTPAuthSession{recLMTPSession{s}, recAuth{s}}
+		case b.LMTPSess:
+			b.shared = &recLMTPSession{s}
+		case b.AuthMechs != nil:
+			b.shared = &recAuthSession{s, recAuth{s}}
+		default:
+			b.shared = s
+		}
 	}
-	return s, nil
+	sh := b.shared
+	b.mu.Unlock()
+	return sh, nil
 }
 
 // Wait waits for outstanding deliveries: the calls in progress, and go-smtp's
